@@ -31,7 +31,8 @@ def rich_population(date, rnd):
 
 
 def job(j):
-    date, seed, tid, nnodes, work, off, stride = j
+    date, seed, tid, nnodes, work, off, stride = j[:7]
+    only = set(j[7]) if len(j) > 7 else None      # regime-date jobs: only the nodes whose rule version differs from the 2023 one
     rnd = random.Random(seed)
     df, P = rich_population(date, rnd)
     info = {"tid": tid, "date": date, "n": len(df), "persons": P, "runs": [], "errors": []}
@@ -48,7 +49,7 @@ def job(j):
     dt = [t for t in gs.default_targets() if t in cols]
     # every node of the DAG is overridden once per pass: job t takes every njobs-th node (offset t)
     has_desc = {a for n in cols for a in args.get(n, []) if a in cols}
-    allnodes = sorted(cols)
+    allnodes = sorted(c for c in cols if only is None or c in only)
     chosen = allnodes[off::stride][:nnodes]
     seen = set()
     k = 0
@@ -88,7 +89,24 @@ def run(tier):
     for p_ in range(passes):
         for t in range(stride):
             jobs.append((dates[(t + p_) % len(dates)] if not quick else dates[t % 4 == 3], rnd.randrange(1 << 30), p_ * stride + t, 60, str(chk.work), t, stride))
-    jobs.sort()
+    # ---- dated rule versions that are not in force on 2023-01-01: overridden on a regime date on which they are
+    import c04
+
+    ref = {n: getattr(f, "__name__", n) for n, f in gs.env("2023-01-01")[1].items()}
+    regs = [d for d in gs.regime_dates("2009-01-01", "2025-12-31") if not ("2017-01-01" <= d <= "2017-06-30")]
+    if quick:
+        regs = [regs[(chk.seed + i) % len(regs)] for i in range(2)]
+    tid0 = len(jobs)
+    versions = {}
+    for d_ in regs:
+        diff = sorted(n for n, f in gs.env(d_)[1].items() if ref.get(n) != getattr(f, "__name__", n))
+        versions[d_] = len(diff)
+        nj = max(1, min(4, len(diff) // 12))
+        for t in range(nj):
+            jobs.append((d_, rnd.randrange(1 << 30), tid0, 40, str(chk.work), t, nj, tuple(diff)))
+            tid0 += 1
+    chk.notes["rule_versions_not_in_force_2023"] = versions
+    jobs.sort(key=lambda j_: (j_[0], j_[2]))
     outs = pool_map(job, jobs)
     nodes_done = set()
     for info in outs:
